@@ -51,6 +51,14 @@ class FuncRef(Opaque):
         return None
 
 
+class ClassRef(Opaque):
+    """A class of the package."""
+
+    def __init__(self, name, node, mod):
+        Opaque.__init__(self, "ClassDef %s" % name)
+        self.name, self.node, self.mod = name, node, mod
+
+
 class Record:
     """An object with known attribute values (models `self` when a method is folded on one domain element)."""
 
@@ -65,6 +73,11 @@ class SymStr(str):
     """A symbolic piece of text: it may be concatenated / formatted into other strings (where it shows up as itself,
     a private-use marker), but any inspection of it (methods, comparison, truth value, len) is Unknown - code whose
     decisions depend on the text is thereby detected instead of being evaluated on one sample text."""
+
+
+class PlainText(SymStr):
+    """Symbolic ORDINARY text: free of ESC / 8-bit CSI introducers (the quantifier of C01/C14 texts).  The only
+    question it answers is that it does not contain a string that includes an introducer."""
 
 
 class ModRef:
@@ -97,7 +110,10 @@ SAFE_BUILTINS = {
     "set": set, "list": list, "tuple": tuple, "sorted": sorted, "str": str, "int": int, "bytes": bytes,
     "frozenset": frozenset, "any": any, "all": all, "sum": sum, "enumerate": enumerate, "bool": bool,
     "repr": repr, "abs": abs, "reversed": reversed, "True": True, "False": False, "None": None,
-    "isinstance": isinstance, "type": type,
+    "isinstance": isinstance, "type": type, "hash": hash, "hasattr": hasattr, "getattr": getattr,
+    "NotImplemented": NotImplemented, "Exception": Exception, "ValueError": ValueError, "TypeError": TypeError,
+    "KeyError": KeyError, "IndexError": IndexError, "AttributeError": AttributeError,
+    "NotImplementedError": NotImplementedError, "UnicodeDecodeError": UnicodeDecodeError,
 }
 SAFE_METHODS = {
     str: {"encode", "lower", "upper", "startswith", "endswith", "format", "join", "split", "strip", "lstrip",
@@ -184,7 +200,9 @@ class Folder:
         try:
             if isinstance(st, ast.FunctionDef):
                 env[st.name] = FuncRef(st.name, st, mod)
-            elif isinstance(st, (ast.AsyncFunctionDef, ast.ClassDef)):
+            elif isinstance(st, ast.ClassDef):
+                env[st.name] = ClassRef(st.name, st, mod)
+            elif isinstance(st, ast.AsyncFunctionDef):
                 env[st.name] = Opaque("%s %s" % (type(st).__name__, st.name))
             elif isinstance(st, ast.ImportFrom):
                 for a in st.names:
@@ -284,6 +302,153 @@ class Folder:
             raise Unknown("assign target %s" % type(t).__name__)
 
     # ---- expressions ----------------------------------------------------------------
+    # value-level operations (overridden by sa.objinterp.OFolder to add modelled objects)
+    def v_truth(self, v):
+        if isinstance(v, SymStr) or v is TOP:
+            raise Unknown("truth value of symbolic text")
+        self._plain(v)
+        return bool(v)
+
+    def v_iter(self, v):
+        self._plain(v)
+        if isinstance(v, SymStr):
+            raise Unknown("iteration over symbolic text")
+        return list(v)
+
+    def v_attr(self, v, attr):
+        if v is itertools and attr == "chain":
+            return itertools.chain
+        if isinstance(v, Record):
+            if attr not in v.fields:
+                raise Unknown("attribute %s of %r" % (attr, v))
+            return v.fields[attr]
+        if isinstance(v, SymStr):
+            raise Unknown("inspection of symbolic text (.%s)" % attr)
+        if isinstance(v, ModRef):
+            menv = self.module(v.name)
+            if attr not in menv or menv[attr] is TOP:
+                raise Unknown("attribute %s of %r" % (attr, v))
+            return menv[attr]
+        if isinstance(v, Opaque):
+            raise Unknown("attribute %s of %r" % (attr, v))
+        for ty, names in SAFE_METHODS.items():
+            if isinstance(v, ty) and attr in names:
+                return getattr(v, attr)
+        if isinstance(v, type) and attr in SAFE_TYPE_ATTRS.get(v, ()):
+            return getattr(v, attr)
+        raise Unknown("attr %s" % attr)
+
+    def v_binop(self, op, l, r):
+        self._plain(l), self._plain(r)
+        if type(op) not in _BINOPS:
+            raise Unknown("operator")
+        return _BINOPS[type(op)](l, r)
+
+    def v_unary(self, op, v):
+        self._plain(v)
+        if isinstance(op, ast.Not):
+            return not self.v_truth(v)
+        if isinstance(v, SymStr):
+            raise Unknown("arithmetic on symbolic text")
+        if isinstance(op, ast.USub):
+            return -v
+        if isinstance(op, ast.UAdd):
+            return +v
+        if isinstance(op, ast.Invert):
+            return ~v
+        raise Unknown("unary")
+
+    def v_compare(self, op, l, r):
+        self._plain(l), self._plain(r)
+        if isinstance(r, PlainText) and isinstance(op, (ast.In, ast.NotIn)) and isinstance(l, str) and \
+                not isinstance(l, SymStr) and ("\x1b" in l or "\x9b" in l):
+            return isinstance(op, ast.NotIn)
+        if (isinstance(l, SymStr) or isinstance(r, SymStr)) and not isinstance(op, (ast.Is, ast.IsNot)):
+            raise Unknown("comparison with symbolic text")
+        return _CMPOPS[type(op)](l, r)
+
+    def v_subscript(self, v, idx):
+        self._plain(v)
+        if isinstance(v, SymStr):
+            raise Unknown("slicing of symbolic text")
+        return v[idx]
+
+    def v_format(self, val, conversion, spec):
+        self._plain(val)
+        if conversion == ord("r"):
+            if isinstance(val, SymStr):
+                raise Unknown("repr of symbolic text")
+            val = repr(val)
+        elif conversion == ord("s"):
+            val = str(val)
+        elif conversion == ord("a"):
+            val = ascii(val)
+        return format(val, spec)
+
+    def v_call(self, f, args, kw, node, env):
+        if isinstance(f, Lam):
+            e2 = dict(f.env)
+            ps = f.node.args
+            names = [p.arg for p in ps.posonlyargs + ps.args]
+            if len(args) > len(names) or ps.vararg or ps.kwarg:
+                raise Unknown("lambda call arity")
+            for p, d in zip(names[::-1], ps.defaults[::-1]):
+                e2[p] = self.expr(d, f.env)
+            for p, a in zip(names, args):
+                e2[p] = a
+            e2.update(kw)
+            return self.expr(f.node.body, e2)
+        if isinstance(f, FuncRef):
+            body = f.simple_return()
+            if body is None:
+                raise Unknown("call of %r (not a single-return function)" % f)
+            ps = f.node.args
+            names = [p.arg for p in ps.posonlyargs + ps.args]
+            if len(args) > len(names):
+                raise Unknown("call arity")
+            e2 = dict(self.module(f.mod))
+            for p, d in zip(names[::-1], ps.defaults[::-1]):
+                e2[p] = self.expr(d, e2)
+            for p, a in zip(names, args):
+                e2[p] = a
+            for k2, v2 in kw.items():
+                if k2 not in names:
+                    raise Unknown("unexpected keyword")
+                e2[k2] = v2
+            if any(nm not in e2 for nm in names):
+                raise Unknown("missing argument")
+            return self.expr(body, e2)
+        for a in list(args) + list(kw.values()):
+            if isinstance(a, (Opaque, Lam, Partial, ModRef, Record)) or a is TOP:
+                raise Unknown("opaque argument")
+        if any(isinstance(a, SymStr) for a in list(args) + list(kw.values())):
+            ok_fn = f in (str, isinstance, type) or (getattr(f, "__name__", "") in ("format", "join") and
+                                                     isinstance(getattr(f, "__self__", None), str))
+            if not ok_fn:
+                raise Unknown("symbolic text passed to %s" % getattr(f, "__name__", f))
+        if isinstance(getattr(f, "__self__", None), SymStr):
+            raise Unknown("method of symbolic text")
+        if isinstance(f, (Opaque, Partial)) or f is TOP:
+            raise Unknown("call of %r" % f)
+        if not callable(f):
+            raise Unknown("call of non-callable")
+        return f(*args, **kw)
+
+    def call_args(self, n, env):
+        args = []
+        for a in n.args:
+            if isinstance(a, ast.Starred):
+                args.extend(self.v_iter(self.expr(a.value, env)))
+            else:
+                args.append(self.expr(a, env))
+        kw = {}
+        for k in n.keywords:
+            if k.arg is None:
+                kw.update(self.expr(k.value, env))
+            else:
+                kw[k.arg] = self.expr(k.value, env)
+        return args, kw
+
     def expr(self, n, env):
         self.tick()
         E = lambda x: self.expr(x, env)
@@ -312,83 +477,48 @@ class Folder:
             out = []
             for x in n.elts:
                 if isinstance(x, ast.Starred):
-                    out.extend(E(x.value))
+                    out.extend(self.v_iter(E(x.value)))
                 else:
                     out.append(E(x))
             return out if isinstance(n, ast.List) else tuple(out)
         if isinstance(n, ast.BinOp):
-            l, r = E(n.left), E(n.right)
-            self._plain(l), self._plain(r)
-            if type(n.op) not in _BINOPS:
-                raise Unknown("operator")
-            return _BINOPS[type(n.op)](l, r)
+            return self.v_binop(n.op, E(n.left), E(n.right))
         if isinstance(n, ast.UnaryOp):
-            v = E(n.operand)
-            self._plain(v)
-            if isinstance(v, SymStr):
-                raise Unknown("truth value of symbolic text")
-            if isinstance(n.op, ast.Not):
-                return not v
-            if isinstance(n.op, ast.USub):
-                return -v
-            if isinstance(n.op, ast.Invert):
-                return ~v
-            raise Unknown("unary")
+            return self.v_unary(n.op, E(n.operand))
         if isinstance(n, ast.BoolOp):
-            if isinstance(n.op, ast.And):
-                v = True
-                for x in n.values:
-                    v = E(x)
-                    if isinstance(v, SymStr):
-                        raise Unknown("truth value of symbolic text")
-                    if not v:
-                        return v
-                return v
-            v = False
+            is_and = isinstance(n.op, ast.And)
+            v = is_and
             for x in n.values:
                 v = E(x)
-                if isinstance(v, SymStr):
-                    raise Unknown("truth value of symbolic text")
-                if v:
+                t = self.v_truth(v)
+                if t != is_and:
                     return v
             return v
         if isinstance(n, ast.IfExp):
-            t = E(n.test)
-            if isinstance(t, SymStr):
-                raise Unknown("truth value of symbolic text")
-            return E(n.body) if t else E(n.orelse)
+            return E(n.body) if self.v_truth(E(n.test)) else E(n.orelse)
         if isinstance(n, ast.Compare):
             l = E(n.left)
-            self._plain(l)
             for op, c in zip(n.ops, n.comparators):
                 r = E(c)
-                self._plain(r)
-                if isinstance(l, SymStr) or isinstance(r, SymStr):
-                    raise Unknown("comparison with symbolic text")
-                if not _CMPOPS[type(op)](l, r):
+                if not self.v_truth(self.v_compare(op, l, r)):
                     return False
                 l = r
             return True
         if isinstance(n, ast.Subscript):
             v = E(n.value)
-            self._plain(v)
             if isinstance(n.slice, ast.Slice):
-                return v[slice(*(E(x) if x is not None else None for x in (n.slice.lower, n.slice.upper, n.slice.step)))]
-            return v[E(n.slice)]
+                idx = slice(*(E(x) if x is not None else None for x in (n.slice.lower, n.slice.upper, n.slice.step)))
+            else:
+                idx = E(n.slice)
+            return self.v_subscript(v, idx)
         if isinstance(n, ast.Lambda):
             return Lam(n, env)
         if isinstance(n, ast.JoinedStr):
             out = []
             for v in n.values:
                 if isinstance(v, ast.FormattedValue):
-                    val = E(v.value)
-                    self._plain(val)
-                    if v.conversion == ord("r"):
-                        val = repr(val)
-                    elif v.conversion == ord("s"):
-                        val = str(val)
                     spec = E(v.format_spec) if v.format_spec is not None else ""
-                    out.append(format(val, spec))
+                    out.append(self.v_format(E(v.value), v.conversion, spec))
                 else:
                     out.append(v.value)
             return "".join(out)
@@ -403,10 +533,10 @@ class Folder:
                         out.append(self.expr(n.elt, env2))
                     return
                 g = n.generators[i]
-                for x in list(self.expr(g.iter, env2)):
+                for x in self.v_iter(self.expr(g.iter, env2)):
                     e3 = dict(env2)
                     self.assign(g.target, x, e3)
-                    if all(self.expr(c, e3) for c in g.ifs):
+                    if all(self.v_truth(self.expr(c, e3)) for c in g.ifs):
                         rec(i + 1, e3)
             rec(0, dict(env))
             if isinstance(n, ast.DictComp):
@@ -415,28 +545,7 @@ class Folder:
                 return set(out)
             return out
         if isinstance(n, ast.Attribute):
-            v = E(n.value)
-            if v is itertools and n.attr == "chain":
-                return itertools.chain
-            if isinstance(v, Record):
-                if n.attr not in v.fields:
-                    raise Unknown("attribute %s of %r" % (n.attr, v))
-                return v.fields[n.attr]
-            if isinstance(v, SymStr):
-                raise Unknown("inspection of symbolic text (.%s)" % n.attr)
-            if isinstance(v, ModRef):
-                menv = self.module(v.name)
-                if n.attr not in menv or menv[n.attr] is TOP:
-                    raise Unknown("attribute %s of %r" % (n.attr, v))
-                return menv[n.attr]
-            if isinstance(v, Opaque):
-                raise Unknown("attribute %s of %r" % (n.attr, v))
-            for ty, names in SAFE_METHODS.items():
-                if isinstance(v, ty) and n.attr in names:
-                    return getattr(v, n.attr)
-            if isinstance(v, type) and n.attr in SAFE_TYPE_ATTRS.get(v, ()):
-                return getattr(v, n.attr)
-            raise Unknown("attr %s" % n.attr)
+            return self.v_attr(E(n.value), n.attr)
         if isinstance(n, ast.Call):
             f = E(n.func)
             if f is _PARTIAL:
@@ -449,64 +558,10 @@ class Folder:
                     else:
                         kw[k.arg] = E(k.value)
                 return Partial(fname, args, kw)
-            args = []
-            for a in n.args:
-                if isinstance(a, ast.Starred):
-                    args.extend(E(a.value))
-                else:
-                    args.append(E(a))
-            kw = {}
-            for k in n.keywords:
-                if k.arg is None:
-                    kw.update(E(k.value))
-                else:
-                    kw[k.arg] = E(k.value)
-            for a in list(args) + list(kw.values()):
-                if isinstance(a, (Opaque, Lam, Partial)) and not isinstance(f, (Lam, FuncRef)):
-                    raise Unknown("opaque argument")
-            if isinstance(f, Lam):
-                e2 = dict(f.env)
-                ps = f.node.args
-                names = [p.arg for p in ps.posonlyargs + ps.args]
-                if len(args) > len(names) or ps.vararg or ps.kwarg:
-                    raise Unknown("lambda call arity")
-                for p, d in zip(names[::-1], ps.defaults[::-1]):
-                    e2[p] = self.expr(d, f.env)
-                for p, a in zip(names, args):
-                    e2[p] = a
-                e2.update(kw)
-                return self.expr(f.node.body, e2)
-            if any(isinstance(a, SymStr) for a in list(args) + list(kw.values())) and not isinstance(f, (Lam, FuncRef)):
-                ok_fn = f in (str, isinstance, type) or (getattr(f, "__name__", "") in ("format", "join") and
-                                          isinstance(getattr(f, "__self__", None), str))
-                if not ok_fn:
-                    raise Unknown("symbolic text passed to %s" % getattr(f, "__name__", f))
-            if isinstance(f, FuncRef):
-                body = f.simple_return()
-                if body is None:
-                    raise Unknown("call of %r (not a single-return function)" % f)
-                ps = f.node.args
-                names = [p.arg for p in ps.posonlyargs + ps.args]
-                if len(args) > len(names):
-                    raise Unknown("call arity")
-                e2 = dict(self.module(f.mod))
-                for p, d in zip(names[::-1], ps.defaults[::-1]):
-                    e2[p] = self.expr(d, e2)
-                for p, a in zip(names, args):
-                    e2[p] = a
-                for k2, v2 in kw.items():
-                    if k2 not in names:
-                        raise Unknown("unexpected keyword")
-                    e2[k2] = v2
-                if any(nm not in e2 for nm in names):
-                    raise Unknown("missing argument")
-                return self.expr(body, e2)
-            if isinstance(f, (Opaque, Partial)) or f is TOP:
-                raise Unknown("call of %r" % f)
-            if not callable(f):
-                raise Unknown("call of non-callable")
-            r = f(*args, **kw)
-            return r
+            args, kw = self.call_args(n, env)
+            return self.v_call(f, args, kw, n, env)
+        if isinstance(n, ast.NamedExpr):
+            raise Unknown("walrus")
         if isinstance(n, ast.Starred):
             raise Unknown("starred")
         raise Unknown(type(n).__name__)
